@@ -360,7 +360,8 @@ func main() {
 	r := ev.Start("C07", "model_checking", 75*time.Second, 17*time.Minute)
 	r.Rule = "every query of the bounded LogQL grammar (1-2 matchers over = != =~ !~; pipelines of <=2 (thorough <=3) stages over line filters |= != |~ !~, " +
 		"label-filter trees of <=3 leaves with and/or/parentheses over string and numeric comparisons, json with parameters, regexp with named groups, drop) " +
-		"is rendered by the real parser+planner and executed by chsim on the universal database under 2 windows x {no limit, limit 1000} x {backward, forward}, " +
+		"is rendered by the real parser+planner and executed by chsim on the universal database under 2 windows x {no limit, limit 1000} x {backward, forward} x {single-node, cluster rendering} " +
+		"(quick tier: the parameter variants only for queries of <=1 stage), " +
 		"and a set of pipeline shapes on every sub-database of <=3 rows of a 6-row pool under limit {1,2,3} x direction; a case is distinct by its query text; " +
 		"non-trivial = the oracle's match set is non-empty or differs between two cases"
 	r.Assumptions = []string{
@@ -537,6 +538,7 @@ func main() {
 	var harnessFirst string
 	pairs := map[string]bool{}
 	executed := int64(0)
+	sampledShapes := map[string]bool{}
 	classCount := map[string]int{}
 	classExample := map[string]string{}
 	for i := range results {
@@ -573,8 +575,9 @@ func main() {
 		executed++
 		r.Outcome(o.outcome)
 		if o.class == "" {
-			if o.nonEmpty {
-				r.Sample(map[string]any{"logql": o.spec.Text, "database": o.spec.DB, "params": paramString(o.spec.Params), "verdict": "agree"})
+			if shape := o.spec.Query.Shape(); o.nonEmpty && !sampledShapes[shape] && len(o.spec.Query.Stages) > 0 {
+				sampledShapes[shape] = true
+				r.Sample(map[string]any{"logql": o.spec.Text, "database": o.spec.DB, "params": paramString(o.spec.Params), "cluster": o.spec.Cluster, "verdict": "agree (non-empty result)"})
 			}
 			continue
 		}
@@ -630,7 +633,6 @@ func classesOf(o outcome) []string {
 	}
 	return []string{o.class}
 }
-
 
 // observations runs a few probes about semantics the statement leaves open (they decide nothing): which of two
 // plausible rules the generated SQL follows.
